@@ -23,19 +23,17 @@ impl<'a> BerDecoder<'a> for SnmpInt {
         if h.is_empty() {
             return Ok(SnmpInt(0));
         }
+        if h.length > 8 {
+            // Does not fit i64
+            return Err(SnmpError::InvalidData);
+        }
+        // Two's complement: sign-extend from the first octet
+        let init: i64 = if i[0] & 0x80 == 0 { 0 } else { -1 };
         let v = i
             .iter()
             .take(h.length)
-            .map(|x| *x as i64)
-            .reduce(|acc, x| (acc << 8) | x)
-            .unwrap_or(0);
-        Ok(SnmpInt(if i[0] & 0x80 == 0 {
-            v
-        } else {
-            // Negative number
-            let m = 1 << (8 * h.length);
-            v - m
-        }))
+            .fold(init, |acc, x| (acc << 8) | (*x as i64));
+        Ok(SnmpInt(v))
     }
 }
 
